@@ -425,12 +425,17 @@ def resFilter (org : Nat) (db rp : String) : Filter :=
 /-- the pair test of the statement -/
 def isPair (db rp : String) (m : Mapping) : Bool := m.Database == db && m.RetentionPolicy == rp
 
+theorem beq_swap {α : Type} [DecidableEq α] (a b : α) : (a == b) = (b == a) := by
+  by_cases h : a = b
+  · subst h; rfl
+  · rw [beq_eq_false_iff_ne.mpr h, beq_eq_false_iff_ne.mpr (Ne.symm h)]
+
 theorem filterFunc_res (m : Mapping) (org : Nat) (db rp : String) :
     filterFunc m (resFilter org db rp) = (decide (m.OrganizationID = org) && isPair db rp m) := by
   simp only [filterFunc, resFilter, isPair, Option.isNone_none, Bool.true_or, Bool.true_and, Option.isNone_some,
-    Bool.false_or, Bool.and_true]
-  by_cases h1 : m.OrganizationID = org <;> by_cases h2 : m.Database = db <;> by_cases h3 : m.RetentionPolicy = rp <;>
-    simp [h1, h2, h3] <;> (intro h; first | exact h1 h.symm | exact h2 h.symm | exact h3 h.symm)
+    Bool.false_or, Bool.and_true, Option.some_beq_some]
+  rw [beq_swap org, beq_swap db, beq_swap rp, Bool.and_assoc]
+  congr 1
 
 theorem findBuckets_res (s : St) (org : Nat) (db rp : String) :
     findBuckets s (resFilter org db rp) = findBuckets s (orgFilter org) := rfl
@@ -517,33 +522,243 @@ theorem merge_sim (org : Nat) (db rp : String) : ∀ (bs : List Bucket) (aL aR :
             · simp only [List.mem_singleton] at hy; rw [hy]; exact hTR
     · -- another pair: the lookup never appends it, the listing's filtered view is unchanged
       have hTf : isPair db rp (bucketToMapping b) = false := by simpa using hT
-      have hright : (match mergeOne (bucketToMapping b) aR with
-          | none => mergeVirtual (resFilter org db rp) aR bs
-          | some nm => mergeVirtual (resFilter org db rp) (if filterFunc nm (resFilter org db rp) = true then aR ++ [nm] else aR) bs)
-          = mergeVirtual (resFilter org db rp) aR bs := by
-        cases hmR : mergeOne (bucketToMapping b) aR with
-        | none => rfl
-        | some nmR =>
-          have hsR := mergeOne_some hmR
-          have : filterFunc nmR (resFilter org db rp) = false := by
-            rw [filterFunc_res]
-            have : isPair db rp nmR = false := by
-              simp only [isPair, hsR.1, hsR.2.1]; exact hTf
-            simp [this]
+      cases hmR : mergeOne (bucketToMapping b) aR with
+      | none =>
+        cases hmL : mergeOne (bucketToMapping b) aL with
+        | none => exact ih aL aR hbs hrel
+        | some nmL =>
+          have hsL := mergeOne_some hmL
+          have hTL : isPair db rp nmL = false := by simp only [isPair, hsL.1, hsL.2.1]; exact hTf
+          simp only
+          split
+          · apply ih _ _ hbs
+            refine ⟨?_, hrel.2⟩
+            simp only [List.filter_append, List.filter_cons, hTL, Bool.false_eq_true, ↓reduceIte, List.filter_nil,
+              List.append_nil]
+            exact hrel.1
+          · exact ih aL aR hbs hrel
+      | some nmR =>
+        have hsR := mergeOne_some hmR
+        have hfR : filterFunc nmR (resFilter org db rp) = false := by
+          rw [filterFunc_res]
+          have : isPair db rp nmR = false := by
+            simp only [isPair, hsR.1, hsR.2.1]; exact hTf
           simp [this]
-      rw [hright]
-      cases hmL : mergeOne (bucketToMapping b) aL with
-      | none => exact ih aL aR hbs hrel
-      | some nmL =>
-        have hsL := mergeOne_some hmL
-        have hTL : isPair db rp nmL = false := by simp only [isPair, hsL.1, hsL.2.1]; exact hTf
-        simp only
-        split
-        · apply ih _ _ hbs
-          refine ⟨?_, hrel.2⟩
-          simp only [List.filter_append, List.filter_cons, hTL, Bool.false_eq_true, ↓reduceIte, List.filter_nil,
-            List.append_nil]
-          exact hrel.1
-        · exact ih aL aR hbs hrel
+        simp only [hfR, Bool.false_eq_true, ↓reduceIte]
+        cases hmL : mergeOne (bucketToMapping b) aL with
+        | none => exact ih aL aR hbs hrel
+        | some nmL =>
+          have hsL := mergeOne_some hmL
+          have hTL : isPair db rp nmL = false := by simp only [isPair, hsL.1, hsL.2.1]; exact hTf
+          simp only
+          split
+          · apply ih _ _ hbs
+            refine ⟨?_, hrel.2⟩
+            simp only [List.filter_append, List.filter_cons, hTL, Bool.false_eq_true, ↓reduceIte, List.filter_nil,
+              List.append_nil]
+            exact hrel.1
+          · exact ih aL aR hbs hrel
+
+end Influx.DBRP
+
+namespace Influx.DBRP
+open Influx.Spec.C43
+
+/-- the stored part of the lookup by (org, db, rp) -/
+def physRes (s : St) (org : Nat) (db rp : String) : List Mapping :=
+  ((walk s org db).map (dflt s)).filter (filterFunc · (resFilter org db rp))
+
+theorem findMany_resolve {s : St} (h : Inv s) (org : Nat) (db rp : String) (hdb : db ≠ "") :
+    findMany s (resFilter org db rp) =
+      .ok (mergeVirtual (resFilter org db rp) (physRes s org db rp) (findBuckets s (orgFilter org))) := by
+  unfold findMany findPhysical
+  have hne : (db != "") = true := by simpa using hdb
+  simp only [resFilter, hne, ↓reduceIte]
+  have hnd : ((none : Option Bool) == some true) = false := rfl
+  simp only [hnd, Bool.false_eq_true, ↓reduceIte]
+  rw [addAll_ok h _ _ _ (fun v hv => ((walk_mem h).mp hv).1)]
+  rfl
+
+theorem pairwise_ids_map_dflt {s : St} {l : List Mapping} (hp : l.Pairwise (fun a b => a.ID ≠ b.ID)) :
+    (l.map (dflt s)).Pairwise (fun a b => a.ID ≠ b.ID) := by
+  rw [List.pairwise_map]; exact hp
+
+/-- **lookup by (org, db, rp)**: at most one mapping, the one the listing shows for that pair -/
+theorem resolve_ok {s : St} (h : Inv s) (org : Nat) (db rp : String) :
+    let R := mergeVirtual (resFilter org db rp) (physRes s org db rp) (findBuckets s (orgFilter org))
+    let L := mergeVirtual (orgFilter org) (physOrg s org) (findBuckets s (orgFilter org))
+    R.length ≤ 1 ∧ ids R = ids (L.filter fun m => m.Database == db && m.RetentionPolicy == rp) := by
+  intro R L
+  -- both stored parts have at most one element and the same members
+  have hA_mem : ∀ x, x ∈ (physOrg s org).filter (isPair db rp) ↔
+      ∃ v ∈ s.recs, v.OrganizationID = org ∧ v.Database = db ∧ v.RetentionPolicy = rp ∧ x = dflt s v := by
+    intro x
+    simp only [List.mem_filter, physOrg, List.mem_map, isPair, Bool.and_eq_true, beq_iff_eq]
+    constructor
+    · rintro ⟨⟨v, hv, rfl⟩, h1, h2⟩
+      have := (walkOrg_mem h).mp hv
+      exact ⟨v, this.1, this.2, h1, h2, rfl⟩
+    · rintro ⟨v, hv, ho, h1, h2, rfl⟩
+      exact ⟨⟨v, (walkOrg_mem h).mpr ⟨hv, ho⟩, rfl⟩, h1, h2⟩
+  have hB_mem : ∀ x, x ∈ physRes s org db rp ↔
+      ∃ v ∈ s.recs, v.OrganizationID = org ∧ v.Database = db ∧ v.RetentionPolicy = rp ∧ x = dflt s v := by
+    intro x
+    simp only [physRes, List.mem_filter, List.mem_map, filterFunc_res, isPair, Bool.and_eq_true, decide_eq_true_eq,
+      beq_iff_eq]
+    constructor
+    · rintro ⟨⟨v, hv, rfl⟩, _, h1, h2⟩
+      have := (walk_mem h).mp hv
+      exact ⟨v, this.1, this.2.1, this.2.2, h2, rfl⟩
+    · rintro ⟨v, hv, ho, h1, h2, rfl⟩
+      exact ⟨⟨v, (walk_mem h).mpr ⟨hv, ho, h1⟩, rfl⟩, ho, h1, h2⟩
+  have hsame : ∀ x y, (∃ v ∈ s.recs, v.OrganizationID = org ∧ v.Database = db ∧ v.RetentionPolicy = rp ∧ x = dflt s v) →
+      (∃ v ∈ s.recs, v.OrganizationID = org ∧ v.Database = db ∧ v.RetentionPolicy = rp ∧ y = dflt s v) → x.ID = y.ID := by
+    rintro x y ⟨v, hv, h1, h2, h3, rfl⟩ ⟨w, hw, g1, g2, g3, rfl⟩
+    rw [h.uniq v hv w hw (by rw [h1, g1]) (by rw [h2, g2]) (by rw [h3, g3])]
+  have hA_len : ((physOrg s org).filter (isPair db rp)).length ≤ 1 :=
+    length_le_one_of_eq ((pairwise_ids_map_dflt (walkOrg_nodup h org)).filter _)
+      (fun x hx y hy => hsame x y ((hA_mem x).mp hx) ((hA_mem y).mp hy))
+  have hB_len : (physRes s org db rp).length ≤ 1 :=
+    length_le_one_of_eq ((pairwise_ids_map_dflt (walk_nodup h org db)).filter _)
+      (fun x hx y hy => hsame x y ((hB_mem x).mp hx) ((hB_mem y).mp hy))
+  have hAB : (physOrg s org).filter (isPair db rp) = physRes s org db rp :=
+    eq_of_length_le_one hA_len hB_len (fun x => by rw [hA_mem, hB_mem])
+  have hrel0 : Rel db rp (physOrg s org) (physRes s org db rp) := by
+    refine ⟨by rw [hAB], ?_⟩
+    intro y hy
+    obtain ⟨v, _, _, h1, h2, rfl⟩ := (hB_mem y).mp hy
+    simp [isPair, dflt, h1, h2]
+  have hrel := merge_sim org db rp (findBuckets s (orgFilter org)) _ _ (fun b hb => findBuckets_org hb) hrel0
+  refine ⟨?_, hrel.1.symm⟩
+  have hu : pairsUnique R = true :=
+    mergeVirtual_pairsUnique _ _ _ (pairsUnique_of_length_le_one hB_len)
+  apply length_le_one_of_pairsUnique hu db rp
+  intro x hx
+  have := hrel.2 x hx
+  simpa [isPair] using this
+
+/-! ### lookup of the default (org, db, default = true) -/
+
+def defFilter (org : Nat) (db : String) : Filter :=
+  { OrgID := some org, Database := some db, Default := some true }
+
+theorem filterFunc_def (m : Mapping) (org : Nat) (db : String) :
+    filterFunc m (defFilter org db) = (decide (m.OrganizationID = org) && (m.Database == db && m.Default)) := by
+  simp only [filterFunc, defFilter, Option.isNone_none, Bool.true_or, Bool.true_and, Option.isNone_some,
+    Bool.false_or, Bool.and_true, Option.some_beq_some]
+  rw [beq_swap org, beq_swap db, Bool.and_assoc]
+  congr 1
+  congr 1
+  cases m.Default <;> rfl
+
+/-- with a stored default in front, no virtual mapping passes the default filter -/
+theorem merge_def_const (org : Nat) (db : String) (dv : Mapping) (hdb : dv.Database = db) (hd : dv.Default = true) :
+    ∀ (bs : List Bucket), mergeVirtual (defFilter org db) [dv] bs = [dv] := by
+  intro bs
+  induction bs with
+  | nil => rfl
+  | cons b bs ih =>
+    simp only [mergeVirtual]
+    cases hm : mergeOne (bucketToMapping b) [dv] with
+    | none => exact ih
+    | some nm =>
+      have hs := mergeOne_some hm
+      have hflt : filterFunc nm (defFilter org db) = false := by
+        rw [filterFunc_def]
+        by_cases hnd : nm.Database = db
+        · have hdef : nm.Default = false := by
+            cases hnmd : nm.Default with
+            | false => rfl
+            | true =>
+              have := mergeOne_some_default hm hnmd dv (by simp) (by rw [hdb, ← hnd, hs.1])
+              rw [hd] at this; cases this
+          simp [hdef]
+        · have : (nm.Database == db) = false := by simpa using hnd
+          simp [this]
+      simp only [hflt, Bool.false_eq_true, ↓reduceIte]
+      exact ih
+
+end Influx.DBRP
+
+namespace Influx.DBRP
+open Influx.Spec.C43
+
+theorem findMany_default {s : St} (h : Inv s) (org : Nat) (db : String) (hdb : db ≠ "") :
+    (getDefault s org db = none ∧
+      findMany s (defFilter org db) = .ok (mergeVirtual (defFilter org db) [] (findBuckets s (orgFilter org)))) ∨
+    (∃ v ∈ s.recs, v.OrganizationID = org ∧ v.Database = db ∧ getDefault s org db = some v.ID ∧
+      findMany s (defFilter org db) = .ok [dflt s v]) := by
+  unfold findMany findPhysical
+  have hne : (db != "") = true := by simpa using hdb
+  have hnd : ((some true : Option Bool) == some true) = true := rfl
+  simp only [defFilter, hne, ↓reduceIte, hnd]
+  cases hd : getDefault s org db with
+  | none => left; exact ⟨rfl, rfl⟩
+  | some d =>
+    right
+    obtain ⟨v, hv, e1, e2, e3⟩ := h.defSome org db d hd
+    have hget : getRec s d = some v := (getRec_iff h).mpr ⟨hv, e1⟩
+    refine ⟨v, hv, e2, e3, by rw [e1], ?_⟩
+    simp only [hget]
+    rw [addAll_ok h _ _ _ (fun x hx => by simp only [List.mem_singleton] at hx; rw [hx]; exact hv)]
+    have hpass : filterFunc (dflt s v) (defFilter org db) = true := by
+      rw [filterFunc_def]
+      simp [dflt, e2, e3, hd, e1]
+    have hdv : (dflt s v).Database = db ∧ (dflt s v).Default = true := by simp [dflt, e2, e3, hd, e1]
+    simp only [List.nil_append, List.map_cons, List.map_nil, List.filter_cons, defFilter] at hpass ⊢
+    simp only [hpass, ↓reduceIte, List.filter_nil]
+    have := merge_def_const org db (dflt s v) hdv.1 hdv.2 (findBuckets s (orgFilter org))
+    simp only [defFilter] at this
+    exact congrArg Except.ok this
+
+/-- **lookup of the default**: at most one mapping; for a database with a stored mapping it is the
+    one the listing flags default -/
+theorem default_ok {s : St} (h : Inv s) (org : Nat) (db : String) (hdb : db ≠ "") :
+    ∃ R, findMany s (defFilter org db) = .ok R ∧ R.length ≤ 1 ∧
+      let L := mergeVirtual (orgFilter org) (physOrg s org) (findBuckets s (orgFilter org))
+      ((L.any fun m => m.Database == db && !m.Virtual) = true →
+        ids R = ids (L.filter fun m => m.Database == db && m.Default)) := by
+  rcases findMany_default h org db hdb with ⟨hnone, hf⟩ | ⟨v, hv, ho, hvdb, hd, hf⟩
+  · refine ⟨_, hf, ?_, ?_⟩
+    · -- only virtual defaults of `db`: all named (db, autogen)
+      have hu : pairsUnique (mergeVirtual (defFilter org db) [] (findBuckets s (orgFilter org))) = true :=
+        mergeVirtual_pairsUnique _ _ _ rfl
+      apply length_le_one_of_pairsUnique hu db "autogen"
+      intro x hx
+      rcases mergeVirtual_from _ _ _ x hx with h1 | ⟨_, hflt, b, _, _, _, e3, e4, e5⟩
+      · simp at h1
+      · rw [filterFunc_def] at hflt
+        simp only [Bool.and_eq_true, decide_eq_true_eq, beq_iff_eq] at hflt
+        exact ⟨hflt.2.1, by rw [e4]; exact default_virtual_autogen b (e5 hflt.2.2)⟩
+    · intro L hany
+      exfalso
+      simp only [List.any_eq_true, Bool.and_eq_true, beq_iff_eq, Bool.not_eq_true'] at hany
+      obtain ⟨x, hx, hxdb, hxv⟩ := hany
+      rcases mergeVirtual_from _ _ _ x hx with h1 | ⟨hvirt, _⟩
+      · obtain ⟨w, hw, hwo, rfl⟩ := physOrg_mem h h1
+        have := h.defEx w hw
+        rw [hwo, show w.Database = db from hxdb, hnone] at this
+        simp at this
+      · rw [hvirt] at hxv; cases hxv
+  · refine ⟨_, hf, by simp, ?_⟩
+    intro L _
+    -- the listing flags exactly one mapping of `db` default, and it is `v`
+    have hwm : ∀ v ∈ walkOrg s org, v ∈ s.recs ∧ v.OrganizationID = org := fun v hv => (walkOrg_mem h).mp hv
+    have hc := cnt_physical h org db (walkOrg s org) hwm (walkOrg_nodup h org)
+    have hvw : v ∈ walkOrg s org := (walkOrg_mem h).mpr ⟨hv, ho⟩
+    have h1 : cnt (physOrg s org) db = 1 := hc.2 v hvw hvdb hd
+    have hm := mergeVirtual_cnt (orgFilter org) db (findBuckets s (orgFilter org)) (physOrg s org) hc.1
+    have hlen : (L.filter fun m => m.Database == db && m.Default).length = 1 := by
+      have hL : cnt (physOrg s org) db ≤ cnt L db ∧ cnt L db ≤ 1 := hm
+      have : cnt L db = 1 := by omega
+      exact this
+    have hmem : dflt s v ∈ L.filter fun m => m.Database == db && m.Default := by
+      apply List.mem_filter.mpr
+      refine ⟨?_, by simp [dflt, hvdb, ho, hd]⟩
+      obtain ⟨vs, hvs, _⟩ := mergeVirtual_prefix (orgFilter org) (findBuckets s (orgFilter org)) (physOrg s org)
+      show dflt s v ∈ mergeVirtual (orgFilter org) (physOrg s org) (findBuckets s (orgFilter org))
+      rw [hvs]
+      exact List.mem_append_left _ (List.mem_map_of_mem hvw)
+    rw [eq_singleton_of_mem hlen hmem]
 
 end Influx.DBRP
